@@ -14,6 +14,7 @@ import ElfiVerif.Drive.C16
 import ElfiVerif.Drive.C17
 import ElfiVerif.Drive.C08
 import ElfiVerif.Drive.C07
+import ElfiVerif.Drive.C10
 
 /-!
 Line-protocol driver: one JSON request per line on stdin (`{"op": "<Cxx.name>", …}`), one JSON answer
@@ -30,7 +31,8 @@ def allHandlers : List (String × H) :=
   ElfiVerif.Drive.C19.handlers ++ ElfiVerif.Drive.C14.handlers ++
   ElfiVerif.Drive.C03.handlers ++ ElfiVerif.Drive.C02.handlers ++
   ElfiVerif.Drive.C16.handlers ++ ElfiVerif.Drive.C17.handlers ++
-  ElfiVerif.Drive.C08.handlers ++ ElfiVerif.Drive.C07.handlers
+  ElfiVerif.Drive.C08.handlers ++ ElfiVerif.Drive.C07.handlers ++
+  ElfiVerif.Drive.C10.handlers
 
 def handleLine (line : String) : String :=
   match Json.parse line with
